@@ -3,6 +3,8 @@
 //verif:replace@C03b regexp.Compile = c03Compile
 //verif:replace@C03a (*regexp.Regexp).Match = c03Match
 //verif:replace@C03b (*regexp.Regexp).Match = c03Match
+//verif:replace@C07h regexp.Compile = c03Compile
+//verif:replace@C07h (*regexp.Regexp).Match = c03Match
 
 package fs
 
